@@ -101,8 +101,8 @@ def generate(rng, tier):
     for k in range(12 if tier == "quick" else 100):
         v, t = gm.tria_family(rng.choice(["grid", "fan", "tetra", "octa", "delaunay"]), rng)
         mode = ["plain", "transposed", "bad_index", "bad_width_t", "bad_width_v", "mutate_after"][k % 6]
-        if mode == "transposed" and (len(v) < 4 or len(t) < 4):
-            mode = "plain"
+        if mode in ("transposed", "bad_width_t", "bad_width_v") and (len(v) < 4 or len(t) < 4):
+            mode = "plain"       # a 3 x 4 array is read as four transposed rows: not a malformed input
         if len(t) < 3:
             continue
         cases.append({"kind": "ctor", "family": "ctor_" + mode, "v": v, "t": t, "mode": mode})
